@@ -40,13 +40,13 @@ def gen(rng, tier):
             for ik in range(3):
                 cases.append("m%d m %d %s %s %s" % (i, s, hx(rid(rng, ik)), hx(rid(rng, (ik + 1) % 3)), hx(rkey(rng, kl))))
                 i += 1
-    nrand = 500 if tier == "quick" else 5000
+    nrand = 500 if tier == "quick" else 20000
     for _ in range(nrand):
         s = rng.choice([rng.randrange(2**64), rng.randrange(2**16), rng.choice(SEQS)])
         kl = rng.choice([rng.randrange(0, 64), rng.choice(KEYLENS), rng.randrange(0, 600)])
         cases.append("m%d m %d %s %s %s" % (i, s, hx(rid(rng, rng.randrange(3))), hx(rid(rng, 2)), hx(rkey(rng, kl))))
         i += 1
-    ndec = 2000 if tier == "quick" else 20000
+    ndec = 2000 if tier == "quick" else 60000
     for j in range(ndec):
         n = rng.choice([rng.randrange(0, 81), 39, 40, 41, 0, 1, 8, 24])
         cases.append("u%d u %s" % (j, hx(bytes(rng.randrange(256) for _ in range(n)))))
@@ -68,7 +68,7 @@ def gen(rng, tier):
         cases.append("p%d P %s" % (j, s.encode().hex()))
     # batches through the repository (Set in one key-value transaction or one by one, then GetAll) over a real Badger:
     # several records, keys of decreasing/increasing/equal lengths, empty keys between non-empty ones, repeated content ids
-    nb = 150 if tier == "quick" else 1500
+    nb = 150 if tier == "quick" else 4000
     for j in range(nb):
         k = rng.choice([0, 1, 2, 2, 3, 3, 4, 5, 8])
         recs, cids = [], []
